@@ -42,14 +42,9 @@ def check_inspectors(ctx, F):
                 else:
                     ctx.bad('R7', 'inspector takes &self', b.defpath, 'receiver is `%s`%s: the query can mutate the coder' % (rk, ' and body calls unsafe code' if unsafe_calls else ''),
                             loc=rules.loc(b), key=k2)
-    # clone is the derived, field-wise one
+    # clone is a complete field-wise copy
     for adt in (ANS, RENC):
-        cl = [b for b in F.bodies if b.promoted is None and b.name == 'clone' and b.self_adt == adt and b.impl_trait == 'core::clone::Clone']
-        key = 'R7/clone-derived/%s' % adt
-        if cl and all(b.derived for b in cl):
-            ctx.ok('R7', 'Clone is the derived field-wise copy', adt, '#[derive(Clone)]', key=key)
-        else:
-            ctx.bad('R7', 'Clone is the derived field-wise copy', adt, 'hand-written or missing Clone impl: a clone may differ from the original', key=key)
+        check_clone_complete(ctx, F, adt)
     # interior mutability scan
     bad = []
     n_fields = 0
@@ -128,6 +123,67 @@ def check_no_guard_dropped_in_ctor(ctx, F, guard_adt, new):
             guard_adt.rsplit('::', 1)[-1], (e.get('span') or '?').split('-')[0], 'an error return' if r.end == 'return' and rules.ret_shape(r.ret)[0] == 'Err' else r.end), key=key, loc=rules.loc(new))
     else:
         ctx.ok('R5', role, new.defpath, 'no drop of a %s on any of %d paths' % (guard_adt.rsplit('::', 1)[-1], len(paths or [])), key=key)
+
+
+def check_clone_complete(ctx, F, adt):
+    """A clone (and a `clone_from`) of a coder copies *every* field.  The derived impl does; a hand-written one is accepted when
+    `clone` builds the literal from clones / copies of the same-named fields and `clone_from`, if it is overridden, assigns or
+    `clone_from`s every field (the point of such an override is to reuse a buffer - the small fields are the ones forgotten)."""
+    cl = [b for b in F.bodies if b.promoted is None and b.name == 'clone' and b.self_adt == adt and b.impl_trait == 'core::clone::Clone']
+    key = 'R7/clone-derived/%s' % adt
+    role = 'Clone copies every field'
+    if not cl:
+        return ctx.bad('R7', role, adt, 'no Clone impl found', key=key)
+    if all(b.derived for b in cl):
+        return ctx.ok('R7', role, adt, '#[derive(Clone)]', key=key)
+    fields = [f['name'] for f in F.adts[adt]['variants'][0]['fields']] if adt in F.adts else []
+    b = cl[0]
+    ctx.touch(b)
+    ev, paths = rules.evaluate(b)
+    bad = unk = None
+    for r in paths or []:
+        if r.end != 'return' or r.ret is None:
+            continue
+        t = r.ret
+        if not (t[0] == 'agg' and t[3]):
+            unk = 'clone() does not return a literal'
+            continue
+        vals = dict(zip(t[3], t[2]))
+        for f in fields:
+            v = vals.get(f)
+            src = ('in', (1, 'deref', ('f', f)))
+            core = v
+            while isinstance(core, tuple) and core and core[0] == 'call' and str(core[1]).endswith(('Clone::clone', '::clone', 'ToOwned::to_owned')) and core[2]:
+                core = core[2][0]
+            if isinstance(core, tuple) and core and core[0] == 'agg' and 'PhantomData' in str(core[1]):
+                continue
+            if core != src:
+                bad = 'clone() fills field `%s` with %s, not with a copy of the same field' % (f, sym.show(v)[:60] if v is not None else 'nothing')
+    cf = [x for x in F.bodies if x.promoted is None and x.name == 'clone_from' and x.self_adt == adt and x.impl_trait == 'core::clone::Clone']
+    for x in cf:
+        ctx.touch(x)
+        evx, px = rules.evaluate(x)
+        for r in px or []:
+            if r.end != 'return':
+                continue
+            done = set()
+            for e in r.events:
+                if e['kind'] == 'write' and e['path'][:2] == (1, 'deref') and len(e['path']) >= 3 and e['path'][2][0] == 'f':
+                    done.add(e['path'][2][1])
+                if e['kind'] == 'call' and e.get('mut_paths'):
+                    for mp in e['mut_paths']:
+                        if mp[:2] == (1, 'deref') and len(mp) >= 3 and mp[2][0] == 'f':
+                            done.add(mp[2][1])
+                        if mp == (1, 'deref'):
+                            done |= set(fields)
+            missing = [f for f in fields if f not in done and 'PhantomData' not in F.ty_s(next(fl['ty'] for fl in F.adts[adt]['variants'][0]['fields'] if fl['name'] == f))]
+            if missing:
+                bad = 'clone_from() leaves field `%s` as it was: after `a.clone_from(&b)` the coder is a mixture of the two (b\'s buffer with a\'s %s), so a snapshot refreshed this way exports and continues differently from its source' % (missing[0], missing[0])
+    if bad:
+        return ctx.bad('R7', role, b.defpath, bad, key=key, loc=rules.loc(b))
+    if unk:
+        return ctx.unresolved('R7', role, b.defpath, unk, key=key)
+    ctx.ok('R7', role, b.defpath, 'hand-written: clone() copies %d field(s)%s' % (len(fields), ', clone_from() refreshes all of them' if cf else ''), key=key)
 
 
 def check_ctor_error_exits_clean(ctx, F, guard_adt, new, coder_root=(1, 'deref')):
@@ -220,6 +276,29 @@ def check_failed_write_compensated(ctx, F, guard_adt, new):
             if a is not None and a[1] == 0 and len(a[0]) == 1 and list(a[0].values())[0][0] == 1:
                 trip = list(a[0].values())[0][1]          # `n - 0` is n
         ctr = trip if (isinstance(trip, tuple) and trip and trip[0] == 'loop' and trip[1] in write_heads) else None
+        if ctr is None and trip is not None:
+            a2 = sym.affine(trip)
+            if a2 is not None and len(a2[0]) == 1 and list(a2[0].values())[0][0] == 1 and a2[1] != 0:
+                base_t = list(a2[0].values())[0][1]
+                if sym.show(base_t).endswith('.0') and sym.contains(base_t, lambda x: isinstance(x, tuple) and x and x[0] == 'call' and str(x[1]).endswith('Iterator::next')):
+                    verdict = ('bad', 'after a refused write the constructor pops index %+d words, where index is the number of words written before the refused one: it takes back %s than it appended, so a failed view removes a genuine word of the compressed data (or leaves one behind)' % (a2[1], 'more' if a2[1] > 0 else 'fewer'))
+                    continue
+        if ctr is None and isinstance(trip, tuple) and trip and trip[0] in ('proj', 'payload') and sym.contains(trip, lambda x: isinstance(x, tuple) and x and x[0] == 'call' and str(x[1]).endswith('Iterator::next') and x[2] and isinstance(x[2][0], tuple) and x[2][0][0] == 'loop' and x[2][0][1] in write_heads):
+            # the index that `.enumerate()` attaches to the refused item: the number of items before it, all of which were written
+            enum_src = any(e2['kind'] == 'loop_enter' and e2['head'] in write_heads and any(isinstance(v2, tuple) and sym.contains(v2, lambda y: isinstance(y, tuple) and y and y[0] == 'call' and str(y[1]).endswith('Iterator::enumerate')) for v2 in e2['pre'].values()) for e2 in r.events)
+            idx_field = (trip[0] == 'proj' and trip[2] == ('f', '0')) or (trip[0] == 'payload' and str(trip[-1]) == '0')
+            if enum_src and sym.show(trip).endswith('.0'):
+                per = []
+                for q in paths:
+                    if q.end == 'backedge':
+                        les = [(i, e3) for i, e3 in enumerate(q.events) if e3['kind'] == 'loop_enter']
+                        if les and les[-1][1]['head'] == le['head']:
+                            body = q.events[les[-1][0]:]
+                            per.append((sum(1 for e3 in body if is_read(e3)), sum(1 for e3 in body if is_write(e3))))
+                if per and all(x == (1, 0) for x in per):
+                    continue
+                verdict = ('bad', 'the loop that should take the appended words back does not pop exactly one word per iteration')
+                continue
         if ctr is None:
             verdict = verdict or ('unresolved', 'the number of words taken back (%s) is not a counter of the writing loop' % (sym.show(trip)[:60] if trip is not None else '?'))
             continue
@@ -330,6 +409,7 @@ def check_coder_guard(ctx, F):
                 src_into = effects.strip_uid(e['args'][1])
     src_guard = None
     item_ok = False
+    enumerated = False
     for r in pn:
         if r.end != 'backedge':
             continue
@@ -340,8 +420,13 @@ def check_coder_guard(ctx, F):
                 for p, v in e['pre'].items():
                     if v[0] == 'call' and 'into_iter' in v[1]:
                         src_guard = effects.strip_uid(v[2][0])
+                        if src_guard[0] == 'call' and str(src_guard[1]).endswith('Iterator::enumerate') and src_guard[2]:
+                            src_guard = src_guard[2][0]       # `.enumerate()` only numbers the items
+                            enumerated = True
             if is_call_on(e, 'WriteWords::write', bulk_n):
                 w = e['args'][1]
+                if enumerated and w[0] == 'proj' and w[2] == ('f', '1'):
+                    w = w[1]
                 item_ok = w[0] == 'payload' and w[2] == 'Some' and w[1][0] == 'call' and w[1][1].endswith('Iterator::next')
     # coordinates: into_compressed has `self` by value (path (1,)), the guard has (1,'deref')
     if src_into is not None:
@@ -606,6 +691,8 @@ def _export_signature(paths, base, write_suffix):
             if any(isinstance(x, tuple) and x and x[0] == 'try' for x in sym.subterms(nt)):
                 continue      # the `?` on the backend write itself (failure paths are excluded above)
             if any(isinstance(x, tuple) and x and x[0] == 'fld' for x in sym.subterms(nt)):
+                if isinstance(nt, tuple) and nt and nt[0] == 'bin' and nt[1] == 'Eq' and not isinstance(v, tuple):
+                    nt, v = ('bin', 'Ne') + nt[2:], 0 if v else 1        # one spelling for `x == c` taken / `x != c` not taken
                 preds.append((nt, v))
         sig.add((wb, tuple(sorted(map(repr, preds))), tuple(map(repr, words))))
     return sig
